@@ -27,6 +27,8 @@ import (
 	pb "github.com/lni/drummer/v3/drummerpb"
 	"github.com/lni/drummer/v3/settings"
 	"github.com/lni/goutils/random"
+	"google.golang.org/grpc/codes"
+	"google.golang.org/grpc/status"
 	"google.golang.org/protobuf/proto"
 )
 
@@ -157,6 +159,9 @@ func (s *server) SetBootstrapped(ctx context.Context,
 
 func (s *server) SetRegions(ctx context.Context,
 	r *pb.Regions) (*pb.ChangeResponse, error) {
+	if r == nil || len(r.Region) == 0 || len(r.Region) != len(r.Count) {
+		return nil, status.Errorf(codes.InvalidArgument, "invalid regions")
+	}
 	data, err := proto.Marshal(r)
 	if err != nil {
 		panic(err)
@@ -166,6 +171,10 @@ func (s *server) SetRegions(ctx context.Context,
 
 func (s *server) SubmitChange(ctx context.Context,
 	c *pb.Change) (*pb.ChangeResponse, error) {
+	if c == nil || c.Type != pb.Change_CREATE ||
+		len(c.Members) == 0 || len(c.AppName) == 0 {
+		return nil, status.Errorf(codes.InvalidArgument, "invalid change")
+	}
 	session, err := s.getSession(ctx, defaultShardID)
 	if err != nil {
 		return nil, err
